@@ -151,6 +151,13 @@ def programs(tier):
     prog = prelude() + [("macrodef", "inner", ["idx"], [("raw", ".db idx")]), ("macrodef", "outer", ["idx"], [("call", "inner", [("expr", "idx")]), ("raw", "idx := idx + 1"), ("call", "inner", [("expr", "idx")])]),
                         ("raw", "idx := 3"), ("call", "outer", [("expr", "idx")]), ("raw", "idx := 9"), ("call", "outer", [("expr", "idx + 1")])] + postlude()
     out.append(("param-named-variable-forwarded", prog))
+    # a macro defined again: applications after the second definition expand the second body
+    prog = prelude() + [("macrodef", "hook", ["a"], [("raw", ".db a")]), ("call", "hook", [("expr", "1")]), ("macrodef", "hook", ["a"], [("raw", ".dw a + k0"), ("raw", "nop")]),
+                        ("call", "hook", [("expr", "2")]), ("block", [("macrodef", "hook", ["a", "b"], [("raw", ".db b, a")]), ("call", "hook", [("expr", "3"), ("expr", "4")])]), ("call", "hook", [("expr", "5"), ("expr", "6")])] + postlude()
+    out.append(("macro-redefined", prog))
+    prog = prelude() + [("if", "1", [("macrodef", "dbg", [], [("raw", ".db 0xD0")])], [("macrodef", "dbg", [], [("raw", ".db 0xD1")])]), ("include", "lib.s", [("macrodef", "dbg", [], [("raw", ".db 0xD2")]), ("macrodef", "libm", ["a"], [("raw", ".db a")])]),
+                        ("call", "dbg", []), ("macrodef", "libm", ["a"], [("raw", ".dw a")]), ("call", "libm", [("expr", "k1")])] + postlude()
+    out.append(("macro-redefined-after-include", prog))
     # recursion terminated by .if
     for depth in (0, 1, 3):
         prog = prelude() + [("macrodef", "rec", ["n"], [("if", "n", [("raw", ".db n"), ("call", "rec", [("expr", "n - 1")])], None)]),
